@@ -464,6 +464,18 @@ class Check:
               (self.prop, self.tier, states, cases, events, time.time() - self.t0))
         return 0
 
+    def require(self, keys):
+        """vacuity guard: every named kind of case / operation must actually have been exercised"""
+        stats = {}
+        for m in self.models:
+            for k, v in m.get("summary", {}).get("stats", {}).items():
+                stats[k] = stats.get(k, 0) + v
+        if any("hang" in m or "abort" in m for m in self.models):
+            return
+        missing = [k for k in keys if not stats.get(k)]
+        if missing:
+            raise ToolError("vacuous run for %s: nothing exercised for %s" % (self.prop, missing))
+
     def nontrivial(self, stats, events):
         # distinct cases that got past the first token / first step, as counted by the harness
         n = 0
